@@ -1,3 +1,4 @@
+import Pocket.Lemmas.FromSourceLayout
 import Pocket.Lemmas.FromSourceConsts
 import Pocket.Lemmas.Layout
 /-
@@ -209,5 +210,14 @@ theorem utf8_constants_from_source :
     (∀ m ∈ Src.c_utf8_MAX_TWO_B, (utf8Bytes (m - 1)).length = 2 ∧ ∀ t ∈ Src.c_utf8_TAG_THREE_B, ∀ c ∈ Src.c_utf8_TAG_CONT, utf8Bytes m = [t, c + 32, c]) ∧
     (∀ m ∈ Src.c_utf8_MAX_THREE_B, (utf8Bytes (m - 1)).length = 3 ∧ ∀ t ∈ Src.c_utf8_TAG_FOUR_B, ∀ c ∈ Src.c_utf8_TAG_CONT, utf8Bytes m = [t, c + 16, c, c]) ∧
     Src.c_utf8_CONT_MASK = [63] := Pocket.utf8_constants_from_source
+
+/-- the binary layout the theorems above are about is the one `event.rs` writes and reads today: the contiguous writes of
+`Event::from_parts` (translated statement by statement on every run) are the model's encoding, `output_size_needed` its size, and
+every accessor reads where the model's decoder reads -/
+theorem event_layout_from_source (id pk sig : Bytes) (kind t : Nat) (tagBytes content b : Bytes) :
+    Src.encodeEventWith id pk sig kind t tagBytes content = encodeEventWith id pk sig kind t tagBytes content ∧
+    Src.eventSize tagBytes.length content.length = eventSize tagBytes.length content.length ∧
+    eventDecodeAt Src.evReads b = eventDecode b :=
+  ⟨event_writer_from_source id pk sig kind t tagBytes content, rfl, event_readers_from_source b⟩
 
 end Pocket.C19
